@@ -6,6 +6,7 @@ import os
 import re
 import shutil
 import subprocess
+import sys
 import tempfile
 import time
 
@@ -60,9 +61,32 @@ def scratch_root():
     return tempfile.gettempdir()
 
 
-def run_tlc(module_path, cfg_path=None, *, workers="auto", dump=None, simulate=None, depth=None,
-            coverage=False, seed=None, timeout=3600, env=None, extra=(), dfs=False, heap=None,
-            allow_violation=True, metadir=None, lib=None, emit=None):
+TOOL_RETRIES = 0        # how often a TLC run had to be repeated in this process (reported in evidence)
+
+
+def run_tlc(module_path, cfg_path=None, **kw):
+    """run TLC (see _run_tlc_once).  A failure of the tool itself - an error that is not a property violation, an
+    abnormal exit - is retried once with fresh scratch directories: seen once in several hundred runs on a machine
+    under very heavy load, never reproducible.  A deterministic failure (a specification error) fails twice and is
+    raised as before; a property violation is never retried."""
+    global TOOL_RETRIES
+    try:
+        return _run_tlc_once(module_path, cfg_path, **kw)
+    except MachineryError as e:
+        msg = str(e)
+        if kw.get("metadir") is None and (msg.startswith("TLC error (not a property violation)") or msg.startswith("TLC exit")):
+            TOOL_RETRIES += 1
+            lines = msg.splitlines()
+            sys.stderr.write("NOTE: TLC failed without a verdict, retrying once: %s\n" % (lines[1][:200] if len(lines) > 1 else lines[0][:200]))
+            if kw.get("emit") and os.path.exists(kw["emit"]):
+                os.remove(kw["emit"])
+            return _run_tlc_once(module_path, cfg_path, **kw)
+        raise
+
+
+def _run_tlc_once(module_path, cfg_path=None, *, workers="auto", dump=None, simulate=None, depth=None,
+                  coverage=False, seed=None, timeout=3600, env=None, extra=(), dfs=False, heap=None,
+                  allow_violation=True, metadir=None, lib=None, emit=None):
     """Run TLC.  module_path: /verif/specs/x/M.tla ; cfg_path default M.cfg next to it.
     dump: path prefix -> writes <prefix>.dump ; simulate: dict(num=, file=) -> -simulate.
     Raises MachineryError when TLC fails for a reason other than a property violation."""
